@@ -175,7 +175,7 @@ func idExactnessRule(c *Ctx) {
 					c.Ok("MakeID-caller:"+f.Pkg.Name+"."+f.Name()+"(public wrapper)", f, call, "public re-export for callers that already hold a Go value; not on a wire decode path")
 					continue
 				}
-				if f.Obj == decodeID && !okPI && len(f.CallsIn(f.Body, parseInt, false)) == 0 && returnsInt64ID(f) {
+				if f.Obj == decodeID && !okPI && !callsStrconv(f) && returnsInt64ID(f) {
 					c.Undecided("MakeID-caller:"+f.Name(), f, call, "integer ids are parsed by hand-written code instead of strconv.ParseInt: whether that parser is exact for every int64 is not something this rule can decide")
 					continue
 				}
@@ -248,7 +248,7 @@ func idExactnessRule(c *Ctx) {
 		}
 		c.Check(okForm, "DecodeID:decoded-by-the-decoder#"+itoa(i), d, r, "DecodeID returns Int64ID(parsed), MakeID(unmarshalled value) or the zero ID (got %s)", exprStr(r.Results[0]))
 	}
-	if !okExact && len(d.CallsIn(d.Body, parseInt, false)) == 0 && returnsInt64ID(d) {
+	if !okExact && !callsStrconv(d) && returnsInt64ID(d) {
 		c.Undecided("DecodeID:exact-integer-path", d, nil, "integer ids are parsed by hand-written code instead of strconv.ParseInt(raw, 10, 64): exactness over the whole int64 range is not decided here")
 	} else {
 		c.Check(okExact, "DecodeID:exact-integer-path", d, nil, "an id in integer syntax is parsed with strconv.ParseInt(raw, 10, 64) and wrapped by Int64ID without passing through float64")
@@ -1623,4 +1623,15 @@ func comparesWithBackslash(f *Func) bool {
 		return !found
 	})
 	return found
+}
+
+// callsStrconv: f parses with the standard library (any strconv function): then the exact form ParseInt(raw, 10, 64) is
+// what is asked for, and ParseUint, Atoi or another bit size is a violation rather than a design this rule cannot judge.
+func callsStrconv(f *Func) bool {
+	for _, call := range f.AllCalls(f.Body, true) {
+		if fn := f.Callee(call); fn != nil && fn.Pkg() != nil && fn.Pkg().Path() == "strconv" {
+			return true
+		}
+	}
+	return false
 }
